@@ -655,4 +655,124 @@ theorem poll_spec {s : State} {h : Hist} (hreach : Reachable s) (ha : Agree s h)
       rfl
     · exact hni
 
+/-! ### the Notify semantics as an explicit hypothesis -/
+
+theorem stepN_tokio (s : State) (l : Label) : stepN tokioReady s l = step s l := by
+  cases l <;> simp only [stepN]
+  simp only [step, tokioReady]
+  split
+  · simp
+  · rfl
+
+theorem stepN_congr {ready : Nat → Nat → Bool} (hN : ∀ ep e, ready ep e = tokioReady ep e)
+    (s : State) (l : Label) : stepN ready s l = step s l := by
+  rw [← stepN_tokio]
+  cases l <;> simp only [stepN]
+  split
+  · rw [hN]
+  · rfl
+
+/-- reachability under an arbitrary Notify semantics -/
+inductive ReachableN (ready : Nat → Nat → Bool) : State → Prop
+  | init : ReachableN ready init
+  | step {s s' : State} {l : Label} : ReachableN ready s → stepN ready s l = some s' → ReachableN ready s'
+
+theorem reachableN_reachable {ready : Nat → Nat → Bool} (hN : ∀ ep e, ready ep e = tokioReady ep e)
+    {s : State} (h : ReachableN ready s) : Reachable s := by
+  induction h with
+  | init => exact Reachable.init
+  | step _ hs ih => exact Reachable.step ih (by rw [← stepN_congr hN]; exact hs)
+
+/-- the part of the invariant that does not depend on the Notify semantics at all -/
+structure SafeInv (s : State) : Prop where
+  noEarly : ∀ g ∈ s.guards, g ≠ .early
+  doneSafe : s.waiter = .done → ∀ g ∈ s.guards, g ≠ .alive
+
+theorem safe_stepN {ready : Nat → Nat → Bool} {s s' : State} {l : Label} (hi : SafeInv s)
+    (hs : stepN ready s l = some s') : SafeInv s' := by
+  obtain ⟨h1, h4⟩ := hi
+  cases l with
+  | wake =>
+    simp only [stepN] at hs
+    split at hs
+    · split at hs
+      · cases hs
+        exact ⟨h1, by intro hd; simp at hd⟩
+      · cases hs
+    · cases hs
+  | newGuard =>
+    simp only [stepN, step] at hs
+    split at hs
+    · rename_i hw
+      cases hs
+      refine ⟨?_, by intro hd; simp [hw] at hd⟩
+      intro g hg
+      simp only [List.mem_append, List.mem_singleton] at hg
+      rcases hg with hg | hg
+      · exact h1 g hg
+      · subst hg; simp
+    · cases hs
+  | decr i =>
+    simp only [stepN, step] at hs
+    split at hs
+    · cases hs
+      constructor
+      · intro g hgm
+        rcases mem_set_cases hgm with h | h
+        · exact h1 g h
+        · subst h; simp
+      · intro hd g hgm
+        rcases mem_set_cases hgm with h | h
+        · exact h4 hd g h
+        · subst h; simp
+    · cases hs
+  | notify i =>
+    simp only [stepN, step] at hs
+    split at hs
+    · cases hs
+      constructor
+      · intro g hgm
+        rcases mem_set_cases hgm with h | h
+        · exact h1 g h
+        · subst h; simp
+      · intro hd g hgm
+        rcases mem_set_cases hgm with h | h
+        · exact h4 hd g h
+        · subst h; simp
+    · cases hs
+  | call =>
+    simp only [stepN, step] at hs
+    split at hs
+    · cases hs; exact ⟨h1, by intro hd; simp at hd⟩
+    · cases hs
+  | arm =>
+    simp only [stepN, step] at hs
+    split at hs
+    · cases hs; exact ⟨h1, by intro hd; simp at hd⟩
+    · cases hs
+  | check =>
+    simp only [stepN, step] at hs
+    split at hs
+    · split at hs
+      · rename_i hz
+        cases hs
+        exact ⟨h1, fun _ => holders_zero hz⟩
+      · cases hs
+        exact ⟨h1, by intro hd; simp at hd⟩
+    · cases hs
+  | rearm =>
+    simp only [stepN, step] at hs
+    split at hs
+    · cases hs; exact ⟨h1, by intro hd; simp at hd⟩
+    · cases hs
+  | cancel =>
+    simp only [stepN, step] at hs
+    cases hs
+    exact ⟨h1, by intro hd; simp at hd⟩
+
+theorem safe_reachableN {ready : Nat → Nat → Bool} {s : State} (h : ReachableN ready s) : SafeInv s := by
+  induction h with
+  | init => exact ⟨by simp [init], by simp [init]⟩
+  | step _ hs ih => exact safe_stepN ih hs
+
 end Lumina.Proofs.Counter
